@@ -487,6 +487,7 @@ async fn run_scenario(sc: &Value, dir: &str, rec: &Rec) -> String {
         }
     };
     let chan_defs = sc.get("channels").and_then(|x| x.as_array()).cloned().unwrap_or(vec![json!({"id":"main"})]);
+    let mut start_seen: HashMap<String, i64> = HashMap::new();
     let mut rig = Rig { sc: sc.clone(), dir: dir.to_string(), sh: sh.clone(), engine, chans: HashMap::new(), chan_defs, qp: 0, qto };
     rig.open_all();
     if !rig.settle().await {
@@ -765,7 +766,17 @@ async fn run_scenario(sc: &Value, dir: &str, rec: &Rec) -> String {
             "advance_to" => {
                 // move the virtual clock so that (now - start_time of the target task) == ms
                 let (pid, tid) = resolve(&rig.engine, &op["target"]);
-                let start = rig.engine.executor().proc().get_process(&pid).and_then(|p| p.task(&tid)).map(|t| t.start_time());
+                // the start time is the one seen when the task was first looked at: the client's idea of "how long has it
+                // been open" does not follow what a reloaded engine may say
+                let key = format!("{pid}:{tid}");
+                let seen = start_seen.get(&key).cloned();
+                let start = seen.or_else(|| rig.engine.executor().proc().get_process(&pid).and_then(|p| p.task(&tid)).map(|t| t.start_time()));
+                if let Some(st) = start {
+                    start_seen.insert(key, st);
+                } else {
+                    // still touch the process like before (a client looking at it loads it)
+                    let _ = rig.engine.executor().proc().get_process(&pid);
+                }
                 match start {
                     Some(st) => {
                         let want = st + op["ms"].as_i64().unwrap_or(0);
